@@ -25,7 +25,7 @@ func TestVerifC12Handle(t *testing.T) {
 	r := vlib.Start("C12", vPart("handle"))
 	defer r.Finish()
 	rr := r.Rand("c12", "handle")
-	n := r.Pick(200, 20000)
+	n := r.Pick(200, 100000)
 	for i := 0; i < n; i++ {
 		id := fmt.Sprintf("handle/%d", i)
 		seed := rr.Int63()
